@@ -5,3 +5,4 @@ import TsVerif.C04.Props
 #print axioms TsVerif.C04.intersects_spec
 #print axioms TsVerif.C04.changed_sorted_bounded_partial
 #print axioms TsVerif.C04.override_span_witness
+#print axioms TsVerif.C04.changed_covers_partial
